@@ -193,9 +193,14 @@ func (c JSONArrayCodec) Read(data []byte, ptr unsafe.Pointer, wt plenccore.WireT
 	}
 
 	a := *(*[]any)(ptr)
-	if a == nil {
+	if a == nil || len(a) != int(count) {
 		a = make([]any, count)
 		*(*[]any)(ptr) = a
+	} else {
+		// nil entries are not written, so must not be left over from before
+		for i := range a {
+			a[i] = nil
+		}
 	}
 
 	for i := range a {
